@@ -6,7 +6,8 @@ CLAIMS = {
     "C03": {
         "text": "Decides, for every path of _Packet.decode at once, that a decoded frame is only returned after a full-width "
                 "keyed-MD5 equality whose operands partition the packet, that the plaintext derives only from signed bytes and "
-                "that rejections are ProtocolErrors. Structural necessary conditions of the property; collision resistance is trusted.",
+                "that rejections are ProtocolErrors (explicit raises, and the may-raise analysis with the packet as taint source: no other "
+                "class escapes decode). Structural necessary conditions of the property; collision resistance is trusted.",
         "note": TRUST + "keyed MD5 changes when any covered bit changes",
         "technique": "value-flow terms + path-condition dominance on the ast (static analysis)",
     },
@@ -46,7 +47,8 @@ CLAIMS = {
         "text": "Validation dominates construction on every path of the response constructor (must-pass-through), the body-check "
                 "exemption is exactly the PropertiesResponse class selected by ids 0xB0/0xB1, checksum/CRC coverage ranges and the "
                 "accept condition (normal completion implies CRC-8 or additive match) are read off value-flow terms, and only "
-                "normally constructed responses can reach the valid list, _update_state, `supported` and `online`.",
+                "normally constructed responses can reach the valid list, _update_state, `supported` and `online`; the may-raise analysis "
+                "shows only the two validation exceptions caught by the frame loop escape Response.construct for any frame bytes.",
         "note": TRUST + "no arithmetic claim about the accept-either coincidence (1 in 255), stated in DESIGN.md",
         "technique": "must-pass-through + value-flow range/provenance analysis (static analysis)",
     },
@@ -63,7 +65,8 @@ CLAIMS = {
         "text": "Layout of the V3 encrypted request derived symbolically; the pad is evaluated in the congruence domain for all 16 "
                 "residues of (len+2) mod 16; declared size = actual − 8; tag over header ‖ plaintext on both sides; decoder ranges, pad "
                 "nibble, counter width agree; the payload strip is decided for pad = 0 and pad > 0 (x[a:-0] is empty); every decoded "
-                "return is dominated by the full-width SHA-256 equality and rejections are ProtocolErrors.",
+                "return is dominated by the full-width SHA-256 equality and rejections are ProtocolErrors; the unauthenticated type nibble "
+                "selects the handshake branch only while a handshake is pending (flag set before the write, reset on every exit).",
         "note": TRUST + "SHA-256 / AES-CBC implementations; Python slicing semantics",
         "technique": "byte-sequence layout + congruence + interval domains, path-condition dominance (static analysis)",
     },
@@ -79,7 +82,8 @@ CLAIMS = {
         "text": "Layouts of Frame.tobytes, Command.tobytes and all 8 command classes are derived symbolically: AA, length byte = |frame|−1 "
                 "(affine), 0xAC, documented frame type per class (constructor resolution), body = data ‖ id ‖ crc8(data ‖ id), checksum "
                 "over [1:-1]; every tobytes override ends in the base framing; counter +1 & 0xFF; CRC table = generated Dallas/Maxim "
-                "table = vendor Lua table; property command count/record layouts; length byte fits for the largest command.",
+                "table = vendor Lua table; property command count/record layouts; length byte fits for the largest command; one counter "
+                "shared by all command classes; tobytes mutates no buffer held by the object (same command serialises identically).",
         "note": TRUST + "vendor Lua table read lexically",
         "technique": "byte-sequence layout domain + constructor resolution + constant folding (static analysis)",
     },
@@ -112,7 +116,7 @@ CLAIMS = {
     "C06": {
         "text": "The SHA-256 proof comparison dominates every return of _get_local_key (path conditions), its operands partition the reply and "
                 "bind it to the configured key; key/expiry are written only by __init__ and authenticate, the stored key is the verified "
-                "return value, every raising path leaves them untouched; LAN credential stores are reached only after a successful "
+                "return value, no session attribute is stored between the reply read and the proof, every raising path leaves them untouched; LAN credential stores are reached only after a successful "
                 "handshake for every budget/outcome sequence (loop exploration); the only write is write(token, HANDSHAKE_REQUEST) after "
                 "the flush; reply-caused failures surface as AuthenticationError (may-raise analysis); expiry = now + 12 h.",
         "note": TRUST + "that both sides derive the same key (XOR/AES algebra) is trusted",
@@ -139,7 +143,7 @@ CLAIMS = {
                 "APP_KEY); bodies carry the stored sessionId and stamp; the login password derivation; get_token returns token/key of the "
                 "very element compared equal to the requested udpid, else CloudError; _post_request explored for budgets 1..3 with the HTTP "
                 "client as oracle (attempts ≤ R, every exceptional exit a CloudError); both byte orders tried with the credentials fetched "
-                "for that order's udpid.",
+                "for that order's udpid; the cloud client is cached for reuse only after login() completed.",
         "note": TRUST + "acceptance by the real cloud service; JSON/KeyError on malformed server answers are outside the property",
         "technique": "value-flow provenance + retry-loop exploration (static analysis)",
     },
@@ -157,7 +161,7 @@ CLAIMS = {
                 "and the public getter; must/may event analysis of apply shows the write is sent exactly once per non-empty change set and "
                 "the set is cleared after props was computed on every sending completion; PropertyId.encode/decode layouts match the vendor "
                 "value encodings (ids and lengths re-read from the Lua); the response parser advances 4+len per record; breeze exclusivity "
-                "and BREEZE_CONTROL precedence from the gated terms.",
+                "and BREEZE_CONTROL precedence from the gated terms; response handlers store backing fields, never the recording setters.",
         "note": TRUST + "vendor value encodings (Lua lines cited); read-back equality through a live device is not decided",
         "technique": "def-use chain + must/may event analysis + layout domain + cursor-advance analysis (static analysis)",
     },
